@@ -1330,6 +1330,12 @@ let rec list_existsb_eq s = function
 | [] -> false
 | x :: xs -> (||) (eqb0 s x) (list_existsb_eq s xs)
 
+(** val nodupb : char list list -> bool **)
+
+let rec nodupb = function
+| [] -> true
+| x :: xs -> (&&) (negb (list_existsb_eq x xs)) (nodupb xs)
+
 type sexp =
 | SAtom of char list
 | SStr of char list
@@ -2157,6 +2163,11 @@ type fm = { root : feature; ctcs : ctc list }
 let mk_info n0 =
   { f_name = n0; f_abstract = (VBool false); f_type = TBoolean; f_cmin =
     (Zpos XH); f_cmax = (Zpos XH); f_attrs = [] }
+
+(** val leaf : char list -> feature **)
+
+let leaf n0 =
+  Feature ((mk_info n0), [])
 
 (** val fsize : feature -> nat **)
 
@@ -3381,6 +3392,29 @@ and prelation =
 | PRelation of ptr * z * z * pfeature list
 
 type pfm = { proot : pfeature; pctcs : ctc list }
+
+(** val annotate : path -> ptr -> feature -> pfeature **)
+
+let rec annotate here parent = function
+| Feature (i, rs) ->
+  PFeature (i, parent, (map (fun _ -> PPath here) i.f_attrs),
+    (let rec go k = function
+     | [] -> []
+     | r :: rs' ->
+       let Relation (a, b, cs) = r in
+       (PRelation ((PPath here), a, b,
+       (let rec goc j = function
+        | [] -> []
+        | c :: cs' ->
+          (annotate (app here ((k, j) :: [])) (PPath here) c) :: (goc (S j)
+                                                                   cs')
+        in goc O cs))) :: (go (S k) rs')
+     in go O rs))
+
+(** val annotate_fm : fm -> pfm **)
+
+let annotate_fm m =
+  { proot = (annotate [] PNone m.root); pctcs = m.ctcs }
 
 (** val jt_FEATURE : char list **)
 
@@ -7056,6 +7090,508 @@ let uvl_read_cst d =
      | Err e -> Err e)
   | None -> Err FlamaException
 
+(** val afm_operator : astop -> char list option **)
+
+let afm_operator = function
+| REQUIRES -> Some ('R'::('E'::('Q'::('U'::('I'::('R'::('E'::('S'::[]))))))))
+| EXCLUDES -> Some ('E'::('X'::('C'::('L'::('U'::('D'::('E'::('S'::[]))))))))
+| AND -> Some ('A'::('N'::('D'::[])))
+| OR -> Some ('O'::('R'::[]))
+| IMPLIES -> Some ('I'::('M'::('P'::('L'::('I'::('E'::('S'::[])))))))
+| NOT -> Some ('N'::('O'::('T'::[])))
+| EQUIVALENCE -> Some ('I'::('F'::('F'::[])))
+| _ -> None
+
+(** val afm_operator_of_keyword : char list -> astop option **)
+
+let afm_operator_of_keyword s =
+  if eqb0 s ('R'::('E'::('Q'::('U'::('I'::('R'::('E'::('S'::[]))))))))
+  then Some REQUIRES
+  else if eqb0 s ('E'::('X'::('C'::('L'::('U'::('D'::('E'::('S'::[]))))))))
+       then Some EXCLUDES
+       else if eqb0 s ('O'::('R'::[]))
+            then Some OR
+            else if eqb0 s ('A'::('N'::('D'::[])))
+                 then Some AND
+                 else if eqb0 s ('I'::('F'::('F'::[])))
+                      then Some EQUIVALENCE
+                      else if eqb0 s
+                                ('I'::('M'::('P'::('L'::('I'::('E'::('S'::[])))))))
+                           then Some IMPLIES
+                           else None
+
+type aitem =
+| ISingle of bool * char list
+| IGroup of char list * char list * char list list
+
+type arelspec = { rs_parent : char list; rs_items : aitem list }
+
+type avalue =
+| AvInt of char list
+| AvText of char list
+
+type adomain =
+| ADiscrete of avalue list
+| ARange of (char list * char list) list
+
+type aattrspec = { at_feature : char list; at_name : char list;
+                   at_domain : adomain; at_default : avalue; at_null : 
+                   avalue }
+
+type aexpr =
+| EVar of char list
+| ENum of char list
+| EBin of char list * aexpr * aexpr
+| ENot of aexpr
+| EParen of aexpr
+
+type actc =
+| CSimple of aexpr * char list
+| CBrackets of char list * (aexpr * char list) list
+
+type adoc = { ad_rels : arelspec list; ad_attrs : aattrspec list option;
+              ad_ctcs : actc list option }
+
+(** val afm_item : relation -> aitem option **)
+
+let afm_item r =
+  match r_children r with
+  | [] ->
+    Some (IGroup ((z_to_string (r_min r)), (z_to_string (r_max r)),
+      (map name [])))
+  | c :: l ->
+    (match l with
+     | [] ->
+       if (&&) (Z.eqb (r_min r) (Zpos XH)) (Z.eqb (r_max r) (Zpos XH))
+       then Some (ISingle (false, (name c)))
+       else if (&&) (Z.eqb (r_min r) Z0) (Z.eqb (r_max r) (Zpos XH))
+            then Some (ISingle (true, (name c)))
+            else None
+     | f :: l0 ->
+       Some (IGroup ((z_to_string (r_min r)), (z_to_string (r_max r)),
+         (map name (c :: (f :: l0))))))
+
+(** val afm_relspecs : feature -> arelspec list **)
+
+let rec afm_relspecs = function
+| Feature (i, rs) ->
+  { rs_parent = i.f_name; rs_items =
+    (flat_map (fun r -> match afm_item r with
+                        | Some x -> x :: []
+                        | None -> []) rs) } :: (flat_map (fun r ->
+                                                 let Relation (_, _, cs) = r
+                                                 in
+                                                 flat_map (fun c ->
+                                                   let Feature (_, rels0) = c
+                                                   in
+                                                   (match rels0 with
+                                                    | [] -> []
+                                                    | _ :: _ -> afm_relspecs c))
+                                                   cs) rs)
+
+(** val afm_value : aval -> avalue result **)
+
+let afm_value = function
+| VInt z0 -> Ok (AvInt (z_to_string z0))
+| VStr s -> Ok (AvText s)
+| _ -> Err OtherExn
+
+(** val afm_attrspec : char list -> attr -> aattrspec result **)
+
+let afm_attrspec fname a =
+  match a.a_dom with
+  | Some d ->
+    (match mapM afm_value d.dom_elems with
+     | Ok els ->
+       (match mapM (fun rg ->
+                match rg.rg_min with
+                | VNone -> Err OtherExn
+                | VBool _ -> Err OtherExn
+                | VInt a1 ->
+                  (match rg.rg_max with
+                   | VNone -> Err OtherExn
+                   | VBool _ -> Err OtherExn
+                   | VInt b1 -> Ok ((z_to_string a1), (z_to_string b1))
+                   | _ -> Err OtherExn)
+                | _ -> Err OtherExn) d.dom_ranges with
+        | Ok rgs ->
+          (match afm_value a.a_default with
+           | Ok dv ->
+             (match afm_value a.a_null with
+              | Ok nv ->
+                (match rgs with
+                 | [] ->
+                   (match els with
+                    | [] -> Err OtherExn
+                    | _ :: _ ->
+                      Ok { at_feature = fname; at_name = a.a_name;
+                        at_domain = (ADiscrete els); at_default = dv;
+                        at_null = nv })
+                 | _ :: _ ->
+                   (match els with
+                    | [] ->
+                      Ok { at_feature = fname; at_name = a.a_name;
+                        at_domain = (ARange rgs); at_default = dv; at_null =
+                        nv }
+                    | _ :: _ -> Err OtherExn))
+              | Err e -> Err e)
+           | Err e -> Err e)
+        | Err e -> Err e)
+     | Err e -> Err e)
+  | None -> Err FlamaException
+
+(** val afm_expr : node -> aexpr result **)
+
+let rec afm_expr = function
+| Node (d, l, r) ->
+  let operand = fun c ->
+    match c with
+    | Some x ->
+      (match afm_expr x with
+       | Ok ex -> Ok (if is_op x then EParen ex else ex)
+       | Err e -> Err e)
+    | None -> Err AttributeError
+  in
+  (match d with
+   | DOp o ->
+     (match afm_operator o with
+      | Some kw ->
+        if astop_eqb o NOT
+        then (match operand l with
+              | Ok a -> Ok (ENot a)
+              | Err e -> Err e)
+        else (match operand l with
+              | Ok a ->
+                (match operand r with
+                 | Ok b -> Ok (EBin (kw, a, b))
+                 | Err e -> Err e)
+              | Err e -> Err e)
+      | None -> Err FlamaException)
+   | DStr s -> Ok (EVar s)
+   | DInt z0 -> Ok (ENum (z_to_string z0))
+   | _ -> Err OtherExn)
+
+(** val afm_render_expr : aexpr -> char list **)
+
+let rec afm_render_expr = function
+| EVar t -> t
+| ENum t -> t
+| EBin (op, a, b) ->
+  append (afm_render_expr a)
+    (append (' '::[]) (append op (append (' '::[]) (afm_render_expr b))))
+| ENot a -> append ('N'::('O'::('T'::(' '::[])))) (afm_render_expr a)
+| EParen a -> append ('('::[]) (append (afm_render_expr a) (')'::[]))
+
+(** val afm_cst : fm -> adoc result **)
+
+let afm_cst m =
+  match mapM (fun pf -> mapM (afm_attrspec (name pf)) (info pf).f_attrs)
+          (get_features m) with
+  | Ok ats ->
+    (match mapM (fun c ->
+             match afm_expr c.c_ast with
+             | Ok ex -> Ok (CSimple (ex, (afm_render_expr ex)))
+             | Err e -> Err e) m.ctcs with
+     | Ok cs ->
+       Ok { ad_rels = (afm_relspecs m.root); ad_attrs = (Some (concat ats));
+         ad_ctcs = (Some cs) }
+     | Err e -> Err e)
+  | Err e -> Err e
+
+(** val afm_render_item : aitem -> char list **)
+
+let afm_render_item = function
+| ISingle (optional, n0) ->
+  if optional then append ('['::[]) (append n0 (']'::[])) else n0
+| IGroup (a, b, cs) ->
+  append ('['::[])
+    (append a
+      (append (','::[])
+        (append b
+          (append (']'::('{'::[])) (append (str_join (' '::[]) cs) ('}'::[]))))))
+
+(** val afm_render_value : avalue -> char list **)
+
+let afm_render_value = function
+| AvInt t -> t
+| AvText t -> t
+
+(** val afm_render : adoc -> char list **)
+
+let afm_render d =
+  append
+    ('%'::('R'::('e'::('l'::('a'::('t'::('i'::('o'::('n'::('s'::('h'::('i'::('p'::('s'::[]))))))))))))))
+    (append ('\n'::[])
+      (append
+        (str_concat
+          (map (fun rs ->
+            append rs.rs_parent
+              (append (' '::(':'::(' '::[])))
+                (append
+                  (str_concat
+                    (map (fun i -> append (' '::[]) (afm_render_item i))
+                      rs.rs_items)) (append (';'::[]) ('\n'::[])))))
+            d.ad_rels))
+        (append ('\n'::[])
+          (append
+            ('%'::('A'::('t'::('t'::('r'::('i'::('b'::('u'::('t'::('e'::('s'::[])))))))))))
+            (append ('\n'::[])
+              (append
+                (str_concat
+                  (map (fun a ->
+                    append a.at_feature
+                      (append ('.'::[])
+                        (append a.at_name
+                          (append (':'::(' '::[]))
+                            (append
+                              (match a.at_domain with
+                               | ADiscrete l ->
+                                 append ('['::[])
+                                   (append
+                                     (str_join (','::[])
+                                       (map afm_render_value l)) (']'::[]))
+                               | ARange l ->
+                                 append
+                                   ('I'::('n'::('t'::('e'::('g'::('e'::('r'::(' '::[]))))))))
+                                   (str_concat
+                                     (map (fun ab ->
+                                       append ('['::[])
+                                         (append (fst ab)
+                                           (append
+                                             (' '::('t'::('o'::(' '::[]))))
+                                             (append (snd ab) (']'::[]))))) l)))
+                              (append (','::[])
+                                (append (afm_render_value a.at_default)
+                                  (append (','::[])
+                                    (append (afm_render_value a.at_null)
+                                      (append (';'::[]) ('\n'::[])))))))))))
+                    (match d.ad_attrs with
+                     | Some l -> l
+                     | None -> [])))
+                (append ('\n'::[])
+                  (append
+                    ('%'::('C'::('o'::('n'::('s'::('t'::('r'::('a'::('i'::('n'::('t'::('s'::[]))))))))))))
+                    (append ('\n'::[])
+                      (str_concat
+                        (map (fun c ->
+                          match c with
+                          | CSimple (_, t) ->
+                            append t (append (';'::[]) ('\n'::[]))
+                          | CBrackets (_, _) -> [])
+                          (match d.ad_ctcs with
+                           | Some l -> l
+                           | None -> []))))))))))))
+
+(** val afm_write : fm -> char list result **)
+
+let afm_write m =
+  match afm_cst m with
+  | Ok d -> Ok (afm_render d)
+  | Err e -> Err e
+
+(** val afm_to_int : char list -> z result **)
+
+let afm_to_int s =
+  match string_to_z s with
+  | Some z0 -> Ok z0
+  | None -> Err ValueError
+
+(** val add_rels : char list -> relation list -> feature -> feature option **)
+
+let rec add_rels target new0 = function
+| Feature (i, rs) ->
+  if eqb0 i.f_name target
+  then Some (Feature (i, (app rs new0)))
+  else let rec go pre = function
+       | [] -> None
+       | r :: rest ->
+         let Relation (a, b, cs) = r in
+         (match let rec goc cpre = function
+                | [] -> None
+                | c :: crest ->
+                  (match add_rels target new0 c with
+                   | Some c' -> Some (app cpre (c' :: crest))
+                   | None -> goc (app cpre (c :: [])) crest)
+                in goc [] cs with
+          | Some cs' ->
+            Some (Feature (i, (app pre ((Relation (a, b, cs')) :: rest))))
+          | None -> go (app pre ((Relation (a, b, cs)) :: [])) rest)
+       in go [] rs
+
+(** val add_attr : char list -> attr -> feature -> feature option **)
+
+let rec add_attr target a = function
+| Feature (i, rs) ->
+  if eqb0 i.f_name target
+  then Some (Feature ({ f_name = i.f_name; f_abstract = i.f_abstract;
+         f_type = i.f_type; f_cmin = i.f_cmin; f_cmax = i.f_cmax; f_attrs =
+         (app i.f_attrs (a :: [])) }, rs))
+  else let rec go pre = function
+       | [] -> None
+       | r :: rest ->
+         let Relation (x, y, cs) = r in
+         (match let rec goc cpre = function
+                | [] -> None
+                | c :: crest ->
+                  (match add_attr target a c with
+                   | Some c' -> Some (app cpre (c' :: crest))
+                   | None -> goc (app cpre (c :: [])) crest)
+                in goc [] cs with
+          | Some cs' ->
+            Some (Feature (i, (app pre ((Relation (x, y, cs')) :: rest))))
+          | None -> go (app pre ((Relation (x, y, cs)) :: [])) rest)
+       in go [] rs
+
+(** val item_relations : aitem list -> relation list result **)
+
+let item_relations items =
+  let singles =
+    flat_map (fun i ->
+      match i with
+      | ISingle (opt, n0) ->
+        (Relation ((if opt then Z0 else Zpos XH), (Zpos XH),
+          ((leaf n0) :: []))) :: []
+      | IGroup (_, _, _) -> []) items
+  in
+  (match mapM (fun i ->
+           match i with
+           | ISingle (_, _) -> Ok []
+           | IGroup (a, b, cs) ->
+             (match afm_to_int a with
+              | Ok a' ->
+                (match afm_to_int b with
+                 | Ok b' -> Ok ((Relation (a', b', (map leaf cs))) :: [])
+                 | Err e -> Err e)
+              | Err e -> Err e)) items with
+   | Ok groups -> Ok (app singles (concat groups))
+   | Err e -> Err e)
+
+(** val item_names : aitem list -> char list list **)
+
+let item_names items =
+  flat_map (fun i ->
+    match i with
+    | ISingle (_, n0) -> n0 :: []
+    | IGroup (_, _, cs) -> cs) items
+
+(** val fresh_names : char list list -> feature -> bool **)
+
+let fresh_names new0 f =
+  (&&) (nodupb new0)
+    (forallb (fun n0 -> negb (list_existsb_eq n0 (names f))) new0)
+
+(** val afm_value_aval : avalue -> aval result **)
+
+let afm_value_aval = function
+| AvInt t -> (match afm_to_int t with
+              | Ok z0 -> Ok (VInt z0)
+              | Err e -> Err e)
+| AvText t -> Ok (VStr t)
+
+(** val afm_read_expr : char list -> aexpr -> node result **)
+
+let rec afm_read_expr prefix = function
+| EVar t -> Ok (term (append prefix t))
+| ENum t -> Ok (term t)
+| EBin (op, a, b) ->
+  (match afm_operator_of_keyword op with
+   | Some o ->
+     (match afm_read_expr prefix a with
+      | Ok a' ->
+        (match afm_read_expr prefix b with
+         | Ok b' -> Ok (bin o a' b')
+         | Err e0 -> Err e0)
+      | Err e0 -> Err e0)
+   | None -> Err FlamaException)
+| ENot a ->
+  (match afm_read_expr prefix a with
+   | Ok a' -> Ok (un NOT a')
+   | Err e0 -> Err e0)
+| EParen a -> afm_read_expr prefix a
+
+(** val afm_read_cst : adoc -> pfm result **)
+
+let afm_read_cst d =
+  match d.ad_rels with
+  | [] -> Err IndexError
+  | first :: others ->
+    let root0 = leaf first.rs_parent in
+    (match let rec go specs cur =
+             match specs with
+             | [] -> Ok cur
+             | s :: rest ->
+               if negb (fresh_names (item_names s.rs_items) cur)
+               then Err OtherExn
+               else (match item_relations s.rs_items with
+                     | Ok rels_ ->
+                       (match add_rels s.rs_parent rels_ cur with
+                        | Some cur' -> go rest cur'
+                        | None -> Err FlamaException)
+                     | Err e -> Err e)
+           in go (first :: others) root0 with
+     | Ok tree ->
+       (match let rec goa specs cur =
+                match specs with
+                | [] -> Ok cur
+                | s :: rest ->
+                  if negb (list_existsb_eq s.at_feature (names cur))
+                  then Err FlamaException
+                  else let dom =
+                         match s.at_domain with
+                         | ADiscrete l ->
+                           (match mapM afm_value_aval l with
+                            | Ok vs -> Ok { dom_ranges = []; dom_elems = vs }
+                            | Err e -> Err e)
+                         | ARange l ->
+                           (match mapM (fun ab ->
+                                    match afm_to_int (fst ab) with
+                                    | Ok a ->
+                                      (match afm_to_int (snd ab) with
+                                       | Ok b ->
+                                         Ok { rg_min = (VInt a); rg_max =
+                                           (VInt b) }
+                                       | Err e -> Err e)
+                                    | Err e -> Err e) l with
+                            | Ok rs -> Ok { dom_ranges = rs; dom_elems = [] }
+                            | Err e -> Err e)
+                       in
+                       (match dom with
+                        | Ok dm ->
+                          (match afm_value_aval s.at_default with
+                           | Ok dv ->
+                             (match afm_value_aval s.at_null with
+                              | Ok nv ->
+                                (match add_attr s.at_feature { a_name =
+                                         s.at_name; a_dom = (Some dm);
+                                         a_default = dv; a_null = nv } cur with
+                                 | Some cur' -> goa rest cur'
+                                 | None -> Err FlamaException)
+                              | Err e -> Err e)
+                           | Err e -> Err e)
+                        | Err e -> Err e)
+              in goa (match d.ad_attrs with
+                      | Some l -> l
+                      | None -> []) tree with
+        | Ok tree2 ->
+          (match mapM (fun c ->
+                   match c with
+                   | CSimple (e, t) ->
+                     (match afm_read_expr [] e with
+                      | Ok n0 -> Ok ({ c_name = t; c_ast = n0 } :: [])
+                      | Err x -> Err x)
+                   | CBrackets (w, l) ->
+                     mapM (fun et ->
+                       match afm_read_expr (append w ('.'::[])) (fst et) with
+                       | Ok n0 -> Ok { c_name = (snd et); c_ast = n0 }
+                       | Err x -> Err x) l)
+                   (match d.ad_ctcs with
+                    | Some l -> l
+                    | None -> []) with
+           | Ok css -> Ok (annotate_fm { root = tree2; ctcs = (concat css) })
+           | Err e -> Err e)
+        | Err e -> Err e)
+     | Err e -> Err e)
+
 (** val metric_methods : char list list **)
 
 let metric_methods =
@@ -9041,6 +9577,445 @@ let d_udoc = function
       | _ -> None))
 | _ -> None
 
+(** val e_aitem : aitem -> sexp **)
+
+let e_aitem = function
+| ISingle (o, n0) -> e_tag ('i'::('s'::[])) ((e_bool o) :: ((SStr n0) :: []))
+| IGroup (a, b, cs) ->
+  e_tag ('i'::('g'::[])) ((SStr a) :: ((SStr b) :: ((SList
+    (map (fun x -> SStr x) cs)) :: [])))
+
+(** val d_aitem : sexp -> aitem option **)
+
+let d_aitem = function
+| SList l ->
+  (match l with
+   | [] -> None
+   | s0 :: l0 ->
+     (match s0 with
+      | SAtom _ ->
+        (match l0 with
+         | [] -> None
+         | o :: l1 ->
+           (match o with
+            | SAtom _ ->
+              (match l1 with
+               | [] -> None
+               | s3 :: l2 ->
+                 (match s3 with
+                  | SStr n0 ->
+                    (match l2 with
+                     | [] -> option_map (fun b -> ISingle (b, n0)) (d_bool o)
+                     | _ :: _ -> None)
+                  | _ -> None))
+            | SStr a ->
+              (match l1 with
+               | [] -> None
+               | s2 :: l2 ->
+                 (match s2 with
+                  | SStr b ->
+                    (match l2 with
+                     | [] -> option_map (fun b0 -> ISingle (b0, b)) (d_bool o)
+                     | s3 :: l3 ->
+                       (match s3 with
+                        | SList cs ->
+                          (match l3 with
+                           | [] ->
+                             option_map (fun x -> IGroup (a, b, x))
+                               (omap d_str cs)
+                           | _ :: _ -> None)
+                        | _ -> None))
+                  | _ -> None))
+            | SList _ ->
+              (match l1 with
+               | [] -> None
+               | s2 :: l3 ->
+                 (match s2 with
+                  | SStr n0 ->
+                    (match l3 with
+                     | [] -> option_map (fun b -> ISingle (b, n0)) (d_bool o)
+                     | _ :: _ -> None)
+                  | _ -> None))))
+      | _ -> None))
+| _ -> None
+
+(** val e_avalue : avalue -> sexp **)
+
+let e_avalue = function
+| AvInt t -> e_tag ('v'::('i'::[])) ((SStr t) :: [])
+| AvText t -> e_tag ('v'::('t'::[])) ((SStr t) :: [])
+
+(** val d_avalue : sexp -> avalue option **)
+
+let d_avalue = function
+| SList l ->
+  (match l with
+   | [] -> None
+   | s0 :: l0 ->
+     (match s0 with
+      | SAtom k ->
+        (match l0 with
+         | [] -> None
+         | s1 :: l1 ->
+           (match s1 with
+            | SStr t ->
+              (match l1 with
+               | [] ->
+                 if eqb0 k ('v'::('i'::[]))
+                 then Some (AvInt t)
+                 else Some (AvText t)
+               | _ :: _ -> None)
+            | _ -> None))
+      | _ -> None))
+| _ -> None
+
+(** val e_adomain : adomain -> sexp **)
+
+let e_adomain = function
+| ADiscrete l -> e_tag ('d'::('d'::[])) (map e_avalue l)
+| ARange l ->
+  e_tag ('d'::('r'::[]))
+    (map (fun ab -> SList ((SStr (fst ab)) :: ((SStr (snd ab)) :: []))) l)
+
+(** val d_adomain : sexp -> adomain option **)
+
+let d_adomain = function
+| SList l ->
+  (match l with
+   | [] -> None
+   | s0 :: args ->
+     (match s0 with
+      | SAtom k ->
+        if eqb0 k ('d'::('d'::[]))
+        then option_map (fun x -> ADiscrete x) (omap d_avalue args)
+        else option_map (fun x -> ARange x)
+               (omap (fun x ->
+                 match x with
+                 | SAtom _ -> None
+                 | SStr _ -> None
+                 | SList l0 ->
+                   (match l0 with
+                    | [] -> None
+                    | s1 :: l1 ->
+                      (match s1 with
+                       | SAtom _ -> None
+                       | SStr a ->
+                         (match l1 with
+                          | [] -> None
+                          | s2 :: l2 ->
+                            (match s2 with
+                             | SAtom _ -> None
+                             | SStr b ->
+                               (match l2 with
+                                | [] -> Some (a, b)
+                                | _ :: _ -> None)
+                             | SList _ -> None))
+                       | SList _ -> None))) args)
+      | _ -> None))
+| _ -> None
+
+(** val e_aexpr : aexpr -> sexp **)
+
+let rec e_aexpr = function
+| EVar t -> e_tag ('e'::('v'::[])) ((SStr t) :: [])
+| ENum t -> e_tag ('e'::('n'::[])) ((SStr t) :: [])
+| EBin (op, a, b) ->
+  e_tag ('e'::('b'::[])) ((SStr op) :: ((e_aexpr a) :: ((e_aexpr b) :: [])))
+| ENot a -> e_tag ('e'::('n'::('o'::('t'::[])))) ((e_aexpr a) :: [])
+| EParen a -> e_tag ('e'::('p'::[])) ((e_aexpr a) :: [])
+
+(** val d_aexpr : sexp -> aexpr option **)
+
+let rec d_aexpr = function
+| SList l ->
+  (match l with
+   | [] -> None
+   | s0 :: l0 ->
+     (match s0 with
+      | SAtom k ->
+        (match l0 with
+         | [] -> None
+         | a :: l1 ->
+           (match a with
+            | SAtom _ ->
+              (match l1 with
+               | [] ->
+                 if eqb0 k ('e'::('n'::('o'::('t'::[]))))
+                 then option_map (fun x -> ENot x) (d_aexpr a)
+                 else if eqb0 k ('e'::('p'::[]))
+                      then option_map (fun x -> EParen x) (d_aexpr a)
+                      else None
+               | _ :: _ -> None)
+            | SStr op ->
+              (match l1 with
+               | [] ->
+                 if eqb0 k ('e'::('v'::[]))
+                 then Some (EVar op)
+                 else if eqb0 k ('e'::('n'::[])) then Some (ENum op) else None
+               | a0 :: l2 ->
+                 (match l2 with
+                  | [] -> None
+                  | b :: l3 ->
+                    (match l3 with
+                     | [] ->
+                       (match d_aexpr a0 with
+                        | Some a' ->
+                          (match d_aexpr b with
+                           | Some b' -> Some (EBin (op, a', b'))
+                           | None -> None)
+                        | None -> None)
+                     | _ :: _ -> None)))
+            | SList _ ->
+              (match l1 with
+               | [] ->
+                 if eqb0 k ('e'::('n'::('o'::('t'::[]))))
+                 then option_map (fun x -> ENot x) (d_aexpr a)
+                 else if eqb0 k ('e'::('p'::[]))
+                      then option_map (fun x -> EParen x) (d_aexpr a)
+                      else None
+               | _ :: _ -> None)))
+      | _ -> None))
+| _ -> None
+
+(** val e_actc : actc -> sexp **)
+
+let e_actc = function
+| CSimple (e, t) -> e_tag ('c'::('s'::[])) ((e_aexpr e) :: ((SStr t) :: []))
+| CBrackets (w, l) ->
+  e_tag ('c'::('b'::[])) ((SStr w) :: ((SList
+    (map (fun et -> SList ((e_aexpr (fst et)) :: ((SStr (snd et)) :: []))) l)) :: []))
+
+(** val d_actc : sexp -> actc option **)
+
+let d_actc = function
+| SList l0 ->
+  (match l0 with
+   | [] -> None
+   | s0 :: l1 ->
+     (match s0 with
+      | SAtom _ ->
+        (match l1 with
+         | [] -> None
+         | e :: l2 ->
+           (match e with
+            | SAtom _ ->
+              (match l2 with
+               | [] -> None
+               | s3 :: l ->
+                 (match s3 with
+                  | SStr t ->
+                    (match l with
+                     | [] ->
+                       option_map (fun e' -> CSimple (e', t)) (d_aexpr e)
+                     | _ :: _ -> None)
+                  | _ -> None))
+            | SStr w ->
+              (match l2 with
+               | [] -> None
+               | s2 :: l3 ->
+                 (match s2 with
+                  | SAtom _ -> None
+                  | SStr t ->
+                    (match l3 with
+                     | [] ->
+                       option_map (fun e' -> CSimple (e', t)) (d_aexpr e)
+                     | _ :: _ -> None)
+                  | SList l ->
+                    (match l3 with
+                     | [] ->
+                       option_map (fun x -> CBrackets (w, x))
+                         (omap (fun x ->
+                           match x with
+                           | SAtom _ -> None
+                           | SStr _ -> None
+                           | SList l4 ->
+                             (match l4 with
+                              | [] -> None
+                              | e0 :: l5 ->
+                                (match l5 with
+                                 | [] -> None
+                                 | s1 :: l6 ->
+                                   (match s1 with
+                                    | SAtom _ -> None
+                                    | SStr t ->
+                                      (match l6 with
+                                       | [] ->
+                                         option_map (fun e' -> (e', t))
+                                           (d_aexpr e0)
+                                       | _ :: _ -> None)
+                                    | SList _ -> None)))) l)
+                     | _ :: _ -> None)))
+            | SList _ ->
+              (match l2 with
+               | [] -> None
+               | s2 :: l3 ->
+                 (match s2 with
+                  | SStr t ->
+                    (match l3 with
+                     | [] ->
+                       option_map (fun e' -> CSimple (e', t)) (d_aexpr e)
+                     | _ :: _ -> None)
+                  | _ -> None))))
+      | _ -> None))
+| _ -> None
+
+(** val e_adoc : adoc -> sexp **)
+
+let e_adoc d =
+  e_tag ('a'::('d'::('o'::('c'::[])))) ((SList
+    (map (fun rs -> SList ((SStr rs.rs_parent) :: ((SList
+      (map e_aitem rs.rs_items)) :: []))) d.ad_rels)) :: ((match d.ad_attrs with
+                                                           | Some l ->
+                                                             SList
+                                                               (map (fun a ->
+                                                                 SList ((SStr
+                                                                 a.at_feature) :: ((SStr
+                                                                 a.at_name) :: (
+                                                                 (e_adomain
+                                                                   a.at_domain) :: (
+                                                                 (e_avalue
+                                                                   a.at_default) :: (
+                                                                 (e_avalue
+                                                                   a.at_null) :: []))))))
+                                                                 l)
+                                                           | None ->
+                                                             SAtom
+                                                               ('n'::('i'::('l'::[])))) :: ((
+    match d.ad_ctcs with
+    | Some l -> SList (map e_actc l)
+    | None -> SAtom ('n'::('i'::('l'::[])))) :: [])))
+
+(** val d_adoc : sexp -> adoc option **)
+
+let d_adoc = function
+| SList l ->
+  (match l with
+   | [] -> None
+   | s0 :: l0 ->
+     (match s0 with
+      | SAtom _ ->
+        (match l0 with
+         | [] -> None
+         | s2 :: l1 ->
+           (match s2 with
+            | SList rels0 ->
+              (match l1 with
+               | [] -> None
+               | attrs :: l2 ->
+                 (match l2 with
+                  | [] -> None
+                  | ctcs0 :: l3 ->
+                    (match l3 with
+                     | [] ->
+                       let r =
+                         omap (fun x ->
+                           match x with
+                           | SAtom _ -> None
+                           | SStr _ -> None
+                           | SList l4 ->
+                             (match l4 with
+                              | [] -> None
+                              | s1 :: l5 ->
+                                (match s1 with
+                                 | SAtom _ -> None
+                                 | SStr p ->
+                                   (match l5 with
+                                    | [] -> None
+                                    | s3 :: l6 ->
+                                      (match s3 with
+                                       | SAtom _ -> None
+                                       | SStr _ -> None
+                                       | SList items ->
+                                         (match l6 with
+                                          | [] ->
+                                            option_map (fun it ->
+                                              { rs_parent = p; rs_items =
+                                              it }) (omap d_aitem items)
+                                          | _ :: _ -> None)))
+                                 | SList _ -> None))) rels0
+                       in
+                       let a =
+                         match attrs with
+                         | SAtom _ -> Some None
+                         | SStr _ -> None
+                         | SList l4 ->
+                           option_map (fun x -> Some x)
+                             (omap (fun x ->
+                               match x with
+                               | SAtom _ -> None
+                               | SStr _ -> None
+                               | SList l5 ->
+                                 (match l5 with
+                                  | [] -> None
+                                  | s1 :: l6 ->
+                                    (match s1 with
+                                     | SAtom _ -> None
+                                     | SStr f ->
+                                       (match l6 with
+                                        | [] -> None
+                                        | s3 :: l7 ->
+                                          (match s3 with
+                                           | SAtom _ -> None
+                                           | SStr n0 ->
+                                             (match l7 with
+                                              | [] -> None
+                                              | dm :: l8 ->
+                                                (match l8 with
+                                                 | [] -> None
+                                                 | dv :: l9 ->
+                                                   (match l9 with
+                                                    | [] -> None
+                                                    | nv :: l10 ->
+                                                      (match l10 with
+                                                       | [] ->
+                                                         (match d_adomain dm with
+                                                          | Some dm' ->
+                                                            (match d_avalue dv with
+                                                             | Some dv' ->
+                                                               (match 
+                                                                d_avalue nv with
+                                                                | Some nv' ->
+                                                                  Some
+                                                                    { at_feature =
+                                                                    f;
+                                                                    at_name =
+                                                                    n0;
+                                                                    at_domain =
+                                                                    dm';
+                                                                    at_default =
+                                                                    dv';
+                                                                    at_null =
+                                                                    nv' }
+                                                                | None -> None)
+                                                             | None -> None)
+                                                          | None -> None)
+                                                       | _ :: _ -> None))))
+                                           | SList _ -> None))
+                                     | SList _ -> None))) l4)
+                       in
+                       let c =
+                         match ctcs0 with
+                         | SAtom _ -> Some None
+                         | SStr _ -> None
+                         | SList l4 ->
+                           option_map (fun x -> Some x) (omap d_actc l4)
+                       in
+                       (match r with
+                        | Some r' ->
+                          (match a with
+                           | Some a' ->
+                             (match c with
+                              | Some c' ->
+                                Some { ad_rels = r'; ad_attrs = a'; ad_ctcs =
+                                  c' }
+                              | None -> None)
+                           | None -> None)
+                        | None -> None)
+                     | _ :: _ -> None)))
+            | _ -> None))
+      | _ -> None))
+| _ -> None
+
 (** val e_names : feature list -> sexp **)
 
 let e_names l =
@@ -9703,6 +10678,82 @@ let dispatch = function
                                                                     | None ->
                                                                     bad
                                                                     ('u'::('d'::('o'::('c'::[])))))
+                                                                    | _ :: _ ->
+                                                                    bad
+                                                                    ('a'::('r'::('i'::('t'::('y'::[])))))))
+                                                                    else 
+                                                                    if 
+                                                                    eqb0 op
+                                                                    ('a'::('f'::('m'::('_'::('w'::('r'::('i'::('t'::('e'::[])))))))))
+                                                                    then 
+                                                                    (match args with
+                                                                    | [] ->
+                                                                    bad
+                                                                    ('a'::('r'::('i'::('t'::('y'::[])))))
+                                                                    | m :: l0 ->
+                                                                    (match l0 with
+                                                                    | [] ->
+                                                                    (match 
+                                                                    d_fm m with
+                                                                    | Some m' ->
+                                                                    e_result
+                                                                    (fun x ->
+                                                                    SStr x)
+                                                                    (afm_write
+                                                                    m')
+                                                                    | None ->
+                                                                    bad
+                                                                    ('f'::('m'::[])))
+                                                                    | _ :: _ ->
+                                                                    bad
+                                                                    ('a'::('r'::('i'::('t'::('y'::[])))))))
+                                                                    else 
+                                                                    if 
+                                                                    eqb0 op
+                                                                    ('a'::('f'::('m'::('_'::('c'::('s'::('t'::[])))))))
+                                                                    then 
+                                                                    (match args with
+                                                                    | [] ->
+                                                                    bad
+                                                                    ('a'::('r'::('i'::('t'::('y'::[])))))
+                                                                    | m :: l0 ->
+                                                                    (match l0 with
+                                                                    | [] ->
+                                                                    (match 
+                                                                    d_fm m with
+                                                                    | Some m' ->
+                                                                    e_result
+                                                                    e_adoc
+                                                                    (afm_cst
+                                                                    m')
+                                                                    | None ->
+                                                                    bad
+                                                                    ('f'::('m'::[])))
+                                                                    | _ :: _ ->
+                                                                    bad
+                                                                    ('a'::('r'::('i'::('t'::('y'::[])))))))
+                                                                    else 
+                                                                    if 
+                                                                    eqb0 op
+                                                                    ('a'::('f'::('m'::('_'::('r'::('e'::('a'::('d'::('_'::('c'::('s'::('t'::[]))))))))))))
+                                                                    then 
+                                                                    (match args with
+                                                                    | [] ->
+                                                                    bad
+                                                                    ('a'::('r'::('i'::('t'::('y'::[])))))
+                                                                    | c :: l0 ->
+                                                                    (match l0 with
+                                                                    | [] ->
+                                                                    (match 
+                                                                    d_adoc c with
+                                                                    | Some c' ->
+                                                                    e_result
+                                                                    e_pfm
+                                                                    (afm_read_cst
+                                                                    c')
+                                                                    | None ->
+                                                                    bad
+                                                                    ('a'::('d'::('o'::('c'::[])))))
                                                                     | _ :: _ ->
                                                                     bad
                                                                     ('a'::('r'::('i'::('t'::('y'::[])))))))
